@@ -9,7 +9,10 @@ MANIFEST = {
             "re-delivered), FAIL yields a Reset, a NON response is delivered once per datagram, a response takes the request off the "
             "retransmission queue; over WHOLE runs under D1 (any datagrams arriving at any time) the ACK/RST datagrams sent are in order "
             "exactly the CON responses received (plus FAILed NONs) and the handler calls are exactly those the single-slot filter lets "
-            "through (run_con_responses_acked, run_con_response_acked_at, run_duplicates_not_redelivered); by a phase invariant over ALL "
+            "through (run_con_responses_acked, run_con_response_acked_at, run_duplicates_not_redelivered), so the handler is never "
+            "handed the same ACK-typed or the same Confirmable message twice in a row - also an ACK-typed response that matched nothing "
+            "on the send queue (response_never_delivered_twice_in_a_row, run_ack_response_at); tokens are arbitrary byte strings in "
+            "all theorems (the zero-length token included); by a phase invariant over ALL "
             "sequences of timer steps and arrivals of copies of the empty ACK and of the server's response message, a CON request sent "
             "from a quiet session concludes at most once and, once the client is quiet, exactly once unless no copy of the response ever "
             "arrived (exactly_once_partial); liveness: under the fairness hypothesis (a response copy is delivered, or no empty ACK is, "
@@ -22,8 +25,11 @@ MANIFEST = {
             "side conditions, and 'never neither' whenever the client is quiet since such a server sends no empty ACK "
             "(exactly_once_piggybacked, exactly_once_piggybacked_default, exactly_once_piggybacked_quiet). M (client, server personalities, network, "
             "event loop) is tied to the compiled code by exact equality of whole traces (every datagram, handler call, NACK, with "
-            "virtual timestamps) of a real client and a real server context on generated loss/duplication/delay schedules; the "
-            "property's clauses are also checked directly on the implementation's trace.",
+            "virtual timestamps) of a real client and a real server context on generated loss/duplication/delay schedules "
+            "(request tokens of 0, 1, 2..8 bytes; server personalities incl. 'da', a peer that sends its response as an ACK-typed "
+            "message with a message id of its own after the Empty ACK); the property's clauses are also checked directly on the "
+            "implementation's trace. OBSERVATION ONLY (no theorem, no model): op xchg2 runs TWO client sessions with equal message ids "
+            "in one context (shared context->sendqueue) and judges the implementation's trace by the oracle alone.",
     "note": "PARTIAL: open finding unsolicited_response_delivered - the client keeps no record of outstanding tokens, so a response "
             "arriving after the NACK, or a second response message from a server that processed a retransmitted request again, is "
             "delivered again; the theorems' hypotheses exclude exactly that: the server piggybacks or de-duplicates (then 'one response "
@@ -32,7 +38,9 @@ MANIFEST = {
             "piggybacked responses it is proved). Liveness (never_neither) is full strength; its explicit fairness hypothesis excludes exactly D5 (separate "
             "response lost on every transmission after the empty ACK arrived: the request stays open, d5_neither_witness). The closed loop of the "
             "theorems (Sys: logs of transmitted datagrams, any copy deliverable) is an abstraction of the harness event loop Sim.run, "
-            "not proved equal to it. Trusted: Lean kernel (+ propext, Classical.choice, Quot.sound), harness/exchange.c + sim_core.h, "
+            "not proved equal to it. For the out-of-RFC personality 'da' only 'never twice' and the hypothesis-free clauses are claimed "
+            "(an ACK whose mid matches nothing does not take the request off the retransmission queue: observation O5). Several "
+            "sessions sharing one context's send queue are not modelled (C06 models that queue); xchg2 is judged by the oracle only. Trusted: Lean kernel (+ propext, Classical.choice, Quot.sound), harness/exchange.c + sim_core.h, "
             "generators and oracle, the hand transcription M (checked against the compiled code on the schedules run only).",
     "design_ref": "DESIGN.md §4 C07, design/C07.md",
 }
@@ -46,12 +54,16 @@ REQUIRED_THEOREMS = ["exactly_once_partial", "response_stops_retransmission", "c
                      "never_neither", "concludes_when_quiet_partial", "d5_neither_witness", "server_one_response_message",
                      "server_without_dedup_witness", "exactly_once_closed_loop_partial", "exactly_once_piggybacked",
                      "exactly_once_piggybacked_default", "exactly_once_piggybacked_quiet", "run_con_responses_acked", "run_con_response_acked_at",
-                     "run_duplicates_not_redelivered"]
+                     "run_duplicates_not_redelivered",
+                     # never twice for ANY ACK-typed / CON response (matched on the send queue or not)
+                     "response_never_delivered_twice_in_a_row", "run_ack_response_at"]
 RULE = ("schedules for harness/exchange.c (real client + real server context, virtual clock, scripted network): server personality "
-        "(piggyback, coap_async delayed / triggered, application-delayed separate CON / NON, each with and without application-level "
-        "request de-duplication) x fate of every datagram in order of transmission (deliver after d ms / drop / duplicate) x scripted "
+        "(piggyback, coap_async delayed / triggered, application-delayed separate CON / NON / ACK-typed-with-own-mid, each with and "
+        "without application-level request de-duplication) x request token (default 2 bytes, zero-length, 1 byte, 2..8 bytes) x fate of every datagram in order of transmission (deliver after d ms / drop / duplicate) x scripted "
         "handler verdicts x 1..5 requests (CON/NON, GET/POST/PUT/DELETE) sent one at a time; exhaustive: every drop pattern over the "
-        "first 8 datagrams and every drop/duplicate pattern over the first 6 for each personality; random loss/dup/delay beyond; "
+        "first 8 datagrams (with 3 token shapes) and every drop/duplicate pattern over the first 6 for each personality; random "
+        "loss/dup/delay beyond; op xchg2: the same requests on two client sessions of one context with equal message ids, every drop "
+        "pattern over the first 8 datagrams per personality + random schedules; "
         "non-trivial = distinct schedule in which the response handler or the NACK handler ran")
 TRUSTED_BASE = ["Lean 4.33 kernel; axioms allowed: propext, Classical.choice, Quot.sound (audited per theorem each run)",
                 "harness/exchange.c + harness/sim_core.h (virtual clock, scripted network, simulation loop), generators, the trace oracle in props/C07.py",
@@ -69,7 +81,7 @@ SPEC_DECISIONS = ["D1 one exchange outstanding = previous exchange over on the w
                   "D5 liveness needs one delivered copy of a separate response"]
 RUN_KW = {"timeout": 1200}
 ACK_TIMEOUT = 2000
-PERS = ["pb", "ac", "ac+", "at", "at+", "dc", "dc+", "dn", "dn+"]
+PERS = ["pb", "ac", "ac+", "at", "at+", "dc", "dc+", "dn", "dn+", "da", "da+"]
 
 
 def harness(ctx):
@@ -77,8 +89,8 @@ def harness(ctx):
 
 
 # --------------------------------------------------------------------------------------------- generator
-def line(pers, D, cm, sm, rc, rs, mode, reqs, verd, fates):
-    return "xchg %s %d %d %d %d %d %s %s %s %s" % (pers, D, cm, sm, rc, rs, mode, ",".join(reqs), verd or "-", ",".join(fates) or "-")
+def line(pers, D, cm, sm, rc, rs, mode, reqs, verd, fates, op="xchg"):
+    return "%s %s %d %d %d %d %d %s %s %s %s" % (op, pers, D, cm, sm, rc, rs, mode, ",".join(reqs), verd or "-", ",".join(fates) or "-")
 
 
 def generate(ctx, escalate=False):
@@ -88,12 +100,31 @@ def generate(ctx, escalate=False):
     # exhaustive part: every drop pattern over the first 8 datagrams, every drop/dup pattern over the first 6 (thorough: 8)
     for pers in PERS:
         D = 300
-        for pat in itertools.product(["d0", "x"], repeat=8):
+        for k, pat in enumerate(itertools.product(["d0", "x"], repeat=8)):
             out.append(line(pers, D, 1000, 5000, 0, 0, "q", ["C1"], "", list(pat)))
+            # the same with other token shapes: zero-length (RFC 7252 5.3.1) always, one byte / eight bytes alternating
+            out.append(line(pers, D, 1000, 5000, 0, 0, "q", ["C1/-"], "", list(pat)))
+            out.append(line(pers, D, 1000, 5000, 0, 0, "q", ["C1/" + ("5a", "0102030405060708")[k % 2]], "", list(pat)))
         k = 8 if thorough else 6
         for pat in itertools.product(["d0", "x", "u0+700"], repeat=k):
             if "u0+700" in pat:
                 out.append(line(pers, D, 1000, 5000, 128, 7, "q", ["C2"], "", list(pat)))
+    # two client sessions with EQUAL message ids in one context (shared context->sendqueue): every drop pattern over the first
+    # 8 datagrams for each personality, random schedules beyond (implementation judged by the oracle only, see design/C07.md)
+    for pers in PERS:
+        for pat in itertools.product(["d0", "x"], repeat=8):
+            out.append(line(pers, 300, 1000, 5000, 0, 0, "q", ["C1"], "", list(pat), op="xchg2"))
+    for _ in range(30000 if thorough else 3000):
+        cm = rng.choice([rng.randrange(65536), 65533, 1000])
+        fates = []
+        loss = rng.choice([0.1, 0.3, 0.6])
+        for _ in range(rng.choice([0, 4, 10, 20, 40])):
+            c = rng.random()
+            fates.append("x" if c < loss else ("u%d+%d" % (rdelay(rng), rdelay(rng)) if c < loss + 0.15 else "d%d" % rdelay(rng)))
+        out.append(line(rng.choice(PERS), rng.choice([1, 50, 500, 1999, 2500, 5000]), cm, cm if rng.random() < 0.3 else rng.randrange(65536),
+                        rng.choice([0, 255, rng.randrange(256)]), rng.choice([0, 255, rng.randrange(256)]), "q",
+                        [rng.choice("CCCN") + rng.choice("1234") for _ in range(rng.choice([1, 1, 2, 3]))],
+                        "".join(rng.choice("ooof") for _ in range(rng.choice([0, 0, 4]))), fates, op="xchg2"))
     n = 200000 if thorough else 20000
     if escalate:
         n *= 3
@@ -105,6 +136,7 @@ def generate(ctx, escalate=False):
         rc, rs = rng.choice([0, 255, rng.randrange(256)]), rng.choice([0, 255, rng.randrange(256)])
         mode = "q" if rng.random() < 0.8 else "e"
         reqs = [rng.choice("CCCN") + rng.choice("1234") for _ in range(rng.choice([1, 1, 2, 3, 4, 5]))]
+        reqs = with_tokens(rng, reqs)
         verd = "".join(rng.choice("ooof") for _ in range(rng.choice([0, 0, 2, 6])))
         fates = []
         loss = rng.choice([0.1, 0.3, 0.6, 0.85])
@@ -117,6 +149,32 @@ def generate(ctx, escalate=False):
             else:
                 fates.append("d%d" % rdelay(rng))
         out.append(line(pers, D, cm, sm, rc, rs, mode, reqs, verd, fates))
+    return out
+
+
+def with_tokens(rng, reqs):
+    """token shapes: default (c0+i 07) mostly; zero-length, 1, 2..7, 8 bytes otherwise; distinct within a line"""
+    if rng.random() < 0.5:
+        return reqs
+    out, used = [], set("%02x07" % (0xc0 + i) for i in range(len(reqs)))
+    for i, r in enumerate(reqs):
+        c = rng.random()
+        if c < 0.4:
+            out.append(r)
+            continue
+        if c < 0.6:
+            t = "-"
+        elif c < 0.75:
+            t = "%02x" % rng.choice([0, i, 0xff, rng.randrange(256)])
+        elif c < 0.9:
+            t = "".join("%02x" % rng.randrange(256) for _ in range(8))
+        else:
+            t = "".join("%02x" % rng.randrange(256) for _ in range(rng.randrange(2, 8)))
+        if t in used:
+            out.append(r)
+            continue
+        used.add(t)
+        out.append(r + "/" + t)
     return out
 
 
@@ -147,7 +205,11 @@ def parse_input(l):
         elif f[0] == "u":
             a, b = f[1:].split("+")
             delays += [int(a), int(b)]
-    return {"pers": w[1], "D": int(w[2]), "mode": w[7], "reqs": w[8].split(","), "maxdelay": max(delays or [0])}
+    reqs = w[8].split(",")
+    if w[0] == "xchg2":       # every entry is sent on session A and on session B: requests 2i and 2i+1
+        reqs = [r[:2] for r in reqs for _ in (0, 1)]
+    toks = [(r[3:] if len(r) > 2 else "%02x07" % (0xc0 + i)) for i, r in enumerate(reqs)]
+    return {"pers": w[1], "D": int(w[2]), "mode": w[7], "reqs": reqs, "toks": toks, "maxdelay": max(delays or [0])}
 
 
 def oracle(inp, trace):
@@ -157,25 +219,37 @@ def oracle(inp, trace):
     ev = parse_trace(trace)
     info = parse_input(inp)
     reqs = {}      # index -> dict(mid, tok)
-    for k, t, a in ev:
+    for idx, (k, t, a) in enumerate(ev):
         if k == "send":
             i = int(a[0])
-            reqs[i] = {"mid": a[1], "tok": "%02x07" % (0xc0 + i), "con": info["reqs"][i][0] == "C", "t": t}
+            reqs[i] = {"mid": a[1], "tok": info["toks"][i], "con": info["reqs"][i][0] == "C", "t": t, "idx": idx}
     # ---- hypothesis-free clauses, checked on every run
     n = len(ev)
     first_verdict = {}
     delivered = {}          # (K, mid, tok) -> handler calls
     arrived = {}            # (K, mid, tok) -> arrivals at the client
     stopped = set()         # request mids whose retransmission must have stopped
+    on_wire = set()         # mids of the Confirmable requests transmitted so far
+    last_call = {"A": None, "C": None}   # mid of the previous handler call with an ACK-typed / a CON response
     for idx, (k, t, a) in enumerate(ev):
+        if k == "rsp" and a[0] in last_call:
+            # never twice: the message the handler saw last (per type: last_ack_mid / last_con_mid) is not handed to it again
+            if last_call[a[0]] == a[2]:
+                return ("clause", "duplicate_not_redelivered (never twice): %s response mid=%s token %s passed to the response "
+                                  "handler twice in a row (at %d)" % ("ACK-typed" if a[0] == "A" else "CON", a[2], a[3], t))
+            last_call[a[0]] = a[2]
         if k == "crx" and len(a) == 4:
             K, code, mid, tok = a[0], int(a[1]), a[2], a[3]
             if code >= 64:
                 arrived[(K, mid, tok)] = arrived.get((K, mid, tok), 0) + 1
-                for r in reqs.values():
-                    if r["tok"] == tok:
-                        stopped.add(r["mid"])
-            if K == "A":
+                # a separate (CON / NON) response stops, by its token, the request transmitted before it
+                if K in ("C", "N"):
+                    for r in reqs.values():
+                        if r["tok"] == tok and r["mid"] in on_wire:
+                            stopped.add(r["mid"])
+            # an ACK (empty or piggybacked response) stops the request that carries its message id (if it has been transmitted:
+            # a request still held back by NSTART is not on the retransmission queue)
+            if K == "A" and mid in on_wire:
                 stopped.add(mid)
             # what the client does before the next arrival / time step
             j = idx + 1
@@ -201,6 +275,10 @@ def oracle(inp, trace):
                         first_verdict[key] = calls[0]
                         if (calls[0] == "f") != (len(rsts) == 1):
                             return ("clause", "fail_verdict_resets: CON response mid=%s verdict %s but %s sent" % (mid, calls[0], "RST" if rsts else "ACK"))
+                    elif info["mode"] == "q" and first_verdict.get(key) == "o" and rsts:
+                        # D1 (no other exchange in between): the duplicate of a response the handler ACCEPTED is acknowledged again
+                        return ("clause", "con_response_always_acked: the duplicate of the accepted CON response mid=%s was answered "
+                                          "with a Reset at %d instead of being acknowledged again" % (mid, t))
                 if K == "N":
                     if len(calls) != 1:
                         return ("clause", "non_delivered_once_per_datagram: NON response mid=%s at %d delivered %d times" % (mid, t, len(calls)))
@@ -210,12 +288,31 @@ def oracle(inp, trace):
                     return ("clause", "piggybacked response mid=%s answered by a message" % mid)
         if k == "ctx" and len(a) == 4 and a[0] == "C" and a[2] in stopped and 0 < int(a[1]) < 32:
             return ("clause", "response_stops_retransmission: request mid=%s retransmitted at %d after its response/ACK arrived" % (a[2], t))
+        if k == "ctx" and len(a) == 4 and a[0] == "C" and 0 < int(a[1]) < 32:
+            on_wire.add(a[2])
+    # ---- what the application is told: the PDU handed to the NACK handler (`sent`) carries the token of the request whose
+    #      message id is reported (the harness books a NACK by the token of `sent`, the trace names the mid)
+    if len(set(info["toks"])) == len(info["toks"]):
+        for m in re.finditer(r" sum:(\d+)=(\d+)/(\d+)", trace):
+            i, nn = int(m.group(1)), int(m.group(3))
+            if i in reqs:
+                want = sum(1 for k, t, a in ev if k == "nack" and a[1] == reqs[i]["mid"])
+                if nn != want:
+                    return ("clause", "NACK handler: request %d (mid=%s, token %s) was reported %d NACK(s) by message id but %d by the token "
+                                      "of the PDU passed to the handler" % (i, reqs[i]["mid"], reqs[i]["tok"], want, nn))
     # ---- exactly once, under the hypotheses
     if info["mode"] != "q" or info["maxdelay"] >= ACK_TIMEOUT:
         return None
     quiet = " st:" in trace and trace.rstrip().endswith("q=1")
+    if len(set(info["toks"])) != len(info["toks"]):
+        return None           # a token used by two requests of the line: conclusions cannot be attributed by token
     for i, r in sorted(reqs.items()):
         if not r["con"]:
+            continue
+        if any(k == "rsp" and a[3] == r["tok"] and a[0] == "A" and a[2] != r["mid"] for k, t, a in ev):
+            # O5: an ACK-typed message whose mid is not the request's is no response style of RFC 7252 (5.3.2: to be ignored);
+            # libcoap delivers it by token but does not take the request off the retransmission queue.  Exactly-once is not
+            # claimed for such a peer; "never twice" is (clause above: not handed to the handler twice in a row).
             continue
         concl = []        # in trace order: ('rsp', K, mid) / ('nack', reason)
         for k, t, a in ev:
@@ -251,6 +348,8 @@ def judge(ctx, c):
     v = oracle(c["input"], i)
     if v:
         return ("spec", "%s: %s" % (v[0], v[1]))
+    if c["input"].startswith("xchg2 "):
+        return None if m == "-" else ("tie", "driver: %s" % m)      # two sessions in one context: oracle only (no model)
     if i != m:
         return ("tie", "trace of the implementation differs from the model's: %s" % first_diff(i, m))
     return None
@@ -278,7 +377,7 @@ def nontrivial(c):
 def classify(c):
     w = c["input"].split()
     i = c["impl"] or ""
-    return "%s:%s:%s" % (w[1], w[7], "nack" if " nack@" in i else ("rsp" if " rsp@" in i else "none"))
+    return "%s%s:%s:%s" % ("2x" if w[0] == "xchg2" else "", w[1], w[7], "nack" if " nack@" in i else ("rsp" if " rsp@" in i else "none"))
 
 
 def search(ctx, tie_breaks, proof):
